@@ -154,6 +154,10 @@ func writeOverlayJSON(pkgRel string) (string, func(), error) {
 	for _, o := range rt.Observed {
 		fmt.Fprintf(os.Stdout, "VERIF-OBSERVE %s\n", o)
 	}
+	for l := range rt.Reached {
+		fmt.Fprintf(os.Stdout, "VERIF-REACHED %s\n", l)
+	}
+	fmt.Fprintf(os.Stdout, "VERIF-DRAWS %d\n", rt.Draws())
 }
 `)
 	drv := filepath.Join(tmp, "zz_verif_driver_test.go")
@@ -285,6 +289,7 @@ type harnessEvidence struct {
 	Funcs       map[string]string `json:"functions_encoded"`
 	Samples     []string          `json:"sample_paths"`
 	Notes       []string          `json:"notes,omitempty"`
+	Validation  *validationStats  `json:"translator_validation,omitempty"`
 }
 
 func cmdCheck(args []string) int {
@@ -299,7 +304,11 @@ func cmdCheck(args []string) int {
 	only := fs.String("only", "", "comma-separated harness names")
 	noReplay := fs.Bool("no-replay", false, "skip native replays")
 	workers := fs.Int("workers", runtime.NumCPU(), "workers")
+	nwit := fs.Int("witnesses", -1, "solver-chosen path inputs per harness that are run natively (translator validation); default 6 quick, 24 thorough")
 	fs.Parse(args[1:])
+	if s := os.Getenv("VERIF_WITNESSES"); s != "" && *nwit < 0 {
+		*nwit, _ = strconv.Atoi(s)
+	}
 	if *tier == "" {
 		*tier = os.Getenv("VERIF_TIER")
 	}
@@ -357,6 +366,16 @@ func cmdCheck(args []string) int {
 	var inconclusive []string
 	violations := 0
 	replays := 0
+	if *nwit < 0 {
+		*nwit = 6
+		if *tier == "thorough" {
+			*nwit = 24
+		}
+	}
+	var wjobs []witnessJob
+	if *nwit > 0 && !*noReplay {
+		prebuildTestBinaries(pkgs)
+	}
 	for _, h := range hs {
 		entry := prog.FindFunc(modulePath + "/" + h.Pkg + "." + h.Func)
 		if entry == nil {
@@ -377,8 +396,18 @@ func cmdCheck(args []string) int {
 		if h.Solver != "" {
 			opts.SolverCmd = strings.Fields(h.Solver)
 		}
-		res := symex.Explore(prog, entry, h.config(), opts)
+		cfg := h.config()
+		if *nwit > 0 && (len(h.ScaleConsts) == 0 || h.RedirectFaithful) && !*noReplay {
+			// (harnesses that run with scaled-down constants under the executor have no native counterpart of a path)
+			cfg.Witness = symex.NewWitnessSink(*nwit)
+		}
+		res := symex.Explore(prog, entry, cfg, opts)
 		fmt.Fprintln(os.Stderr, res.Summary())
+		if cfg.Witness != nil {
+			for _, w := range cfg.Witness.W {
+				wjobs = append(wjobs, witnessJob{h: h, w: w})
+			}
+		}
 		ev := harnessEvidence{Name: h.Name, Entry: res.Entry, Tier: h.Tier, Mode: h.Mode, Bounds: h.Bounds, Outside: h.Outside, Unwind: h.Unwind,
 			Cuts: h.Cuts, Redirect: h.Redirect, Stubs: h.Stubs, Assumes: h.Assumes, Paths: res.Paths, Ends: res.Ends, Decisions: res.Decisions,
 			Obligations: res.Obligations, Discharged: res.Discharged, Trivial: res.Trivial, Violations: len(res.Violations), Reached: res.Reached,
@@ -461,6 +490,24 @@ func cmdCheck(args []string) int {
 			}
 		}
 		evs = append(evs, ev)
+	}
+	// translator validation: solver-chosen inputs of finished paths, run natively
+	vstats, vinc, vfails := validateWitnesses(id, wjobs)
+	inconclusive = append(inconclusive, vinc...)
+	for i := range evs {
+		if st := vstats[evs[i].Name]; st != nil {
+			evs[i].Validation = st
+			replays += st.Witnesses
+		}
+	}
+	for _, f := range vfails {
+		if kf := matchKnown(known, id, f.h.Name, f.v); kf != nil {
+			fmt.Printf("KNOWN-FINDING: property=%s %s\n", id, kf.What)
+			continue
+		}
+		fmt.Printf("VIOLATION property=%s replay=%s\n", id, f.rpath)
+		fmt.Printf("  harness=%s native run of a solver-chosen path input fails: %s values=%v\n", f.h.Name, f.outcome, f.v.Model)
+		violations++
 	}
 	if id == "C17" && (len(onlySet) == 0 || onlySet["c17_race_bmc"]) {
 		// second sentence of the property: data races on the handler's shared fields (skeleton BMC, racebmc.go)
